@@ -449,8 +449,19 @@ inline std::string numeric_literal_to_value(
         if(value.find_first_not_of("+-0123456789") == std::string_view::npos)
         {
             // written as an integer, see `strip_leading_zeros`
-            return fmt::format(
-                "static_cast<{}>({})", type, strip_leading_zeros(value));
+            const auto stripped = strip_leading_zeros(value);
+            std::string_view digits{stripped};
+            if(!digits.empty() && ((digits[0] == '-') || (digits[0] == '+')))
+            {
+                digits.remove_prefix(1);
+            }
+            if(!digits.empty() && !string_to_number<std::int64_t>(digits))
+            {
+                // magnitude is not representable by a signed integer literal,
+                // make it a floating-point one
+                return fmt::format("static_cast<{}>({}.0)", type, stripped);
+            }
+            return fmt::format("static_cast<{}>({})", type, stripped);
         }
         return fmt::format("static_cast<{}>({})", type, value);
     }
